@@ -3,7 +3,13 @@ Model of `TSDataTracking` (`ts_data/types.cpp record_modified`, `notify_child_mo
 `TSDataMutationView::invalidate` (`ts_data/base_view.cpp`) over a tree of time-series positions
 (bundle / list / dict children point to their parent).  Positions are naturals, the parent of a
 position has a smaller number.  `lmt p = 0` is `MIN_DT`: never written / invalidated.
-`modified p t := lmt p = t`, `valid p := lmt p ≠ 0` (`base_view.cpp`).  Core Lean only.
+`modified p t := lmt p = t`, `valid p := lmt p ≠ 0` (`base_view.cpp`; for TS, TSB and fixed TSL
+`has_current_value` is `last_modified_time != MIN_DT`: `ts_data_atomic_ops.cpp`,
+`ts_data_fixed_structured_ops.cpp`).  Core Lean only.
+
+Also the consumer side (`ts_input/base_view.cpp InputDataCursor::last_modified_time / modified`,
+`ts_input/target_link.cpp`): a bound `TSInput` reads the producer's tracking records through its
+target link, EXCEPT at the link root, where the link's own tracking record is blended in.
 -/
 namespace HgVerif.Tracking
 
@@ -44,5 +50,165 @@ def valid (L : Lmt) (p : Nat) : Prop := L p ≠ 0
 inductive Anc (T : Tree) : Nat → Nat → Prop where
   | refl (p : Nat) : Anc T p p
   | step {x p q : Nat} : T.parent p = some q → Anc T x q → Anc T x p
+
+/-! ## the general `invalidate` (containers) -/
+
+/-- a tree with its children function (`ownership_ops->child_count / child_at`), consistent with
+    `parent`; `height` bounds the depth below a position (finite trees), it is the recursion measure
+    of `invalidate` -/
+structure KTree extends Tree where
+  kids : Nat → List Nat
+  kids_iff : ∀ p c, c ∈ kids p ↔ parent c = some p
+  height : Nat → Nat
+  height_lt : ∀ p c, parent c = some p → height c < height p
+
+/-- `TSDataMutationView::invalidate()` exactly as coded (`base_view.cpp` l.490-527):
+    no current value → `return false`; otherwise every (mutable) child is invalidated recursively, in
+    index order, each through its own mutation view — so each still-valid child tells ITS parent (this
+    position) `notify_child_modified`, which stamps this position and its ancestors with `t`;
+    then `observers.notify(t)`, `parent.notify_child_modified(t)` (= `record_modified(t)` at the parent
+    and upwards while it returns true), and only THEN `last_modified_time = MIN_DT`. -/
+def invalidateF (K : KTree) (t : Nat) : Nat → Nat → Lmt → Lmt
+  | 0, _, L => L
+  | fuel + 1, p, L =>
+    if L p = 0 then L
+    else
+      let L1 := (K.kids p).foldl (fun acc c => invalidateF K t fuel c acc) L
+      let L2 := match K.parent p with
+        | none => L1
+        | some q => markUp K.toTree (q + 1) q t L1
+      upd L2 p 0
+
+def invalidate (K : KTree) (p t : Nat) (L : Lmt) : Lmt := invalidateF K t (K.height p + 1) p L
+
+/-! ## observer notifications (`TSDataObserverSet::notify`)
+
+`record_modified` notifies the observers of a level exactly when it records (`observers.notify` after the
+`<=` guard); `invalidate()` notifies the observers of the position explicitly before the reset.  The lists
+below are the positions notified by one operation, in the order of the calls. -/
+
+def markUpN (T : Tree) : Nat → Nat → Nat → Lmt → List Nat
+  | 0, _, _, _ => []
+  | fuel + 1, p, t, L =>
+    if t ≤ L p then []
+    else
+      p :: (match T.parent p with
+        | none => []
+        | some q => markUpN T fuel q t (upd L p t))
+
+def writeN (T : Tree) (p t : Nat) (L : Lmt) : List Nat := markUpN T (p + 1) p t L
+
+/-- state and notifications of the cascade over the children (same fold as in `invalidateF`) -/
+def invalidateFN (K : KTree) (t : Nat) : Nat → Nat → Lmt → List Nat
+  | 0, _, _ => []
+  | fuel + 1, p, L =>
+    if L p = 0 then []
+    else
+      let r := (K.kids p).foldl
+        (fun (acc : Lmt × List Nat) c => (invalidateF K t fuel c acc.1, acc.2 ++ invalidateFN K t fuel c acc.1)) (L, [])
+      r.2 ++ [p] ++ (match K.parent p with
+        | none => []
+        | some q => markUpN K.toTree (q + 1) q t r.1)
+
+def invalidateN (K : KTree) (p t : Nat) (L : Lmt) : List Nat := invalidateFN K t (K.height p + 1) p L
+
+/-! ## histories -/
+
+inductive Op where
+  | w (p t : Nat)       -- write to (leaf) position `p` in the cycle at `t`
+  | inv (p t : Nat)     -- `begin_mutation(t).invalidate()` on position `p`
+
+def Op.time : Op → Nat
+  | .w _ t => t
+  | .inv _ t => t
+
+def apply (K : KTree) : Op → Lmt → Lmt
+  | .w p t, L => write K.toTree p t L
+  | .inv p t, L => invalidate K p t L
+
+def run (K : KTree) (ops : List Op) (L : Lmt) : Lmt := ops.foldl (fun L o => apply K o L) L
+
+/-- the positions whose observers one operation notifies (with multiplicity, in call order) -/
+def applyN (K : KTree) : Op → Lmt → List Nat
+  | .w p t, L => writeN K.toTree p t L
+  | .inv p t, L => invalidateN K p t L
+
+/-! ## the consumer side: a `TSInput` bound to the root `r` of the output
+
+`TSInputTargetLinkState` subscribes to the target ROOT's observer set (`bind_impl`:
+`state.target.data_view().subscribe(&state)`); every notification lands in the link's own tracking
+record (`TSInputTargetLinkState::notify → record_target_modified → tracking.record_modified`).  The
+root's observers are notified (a) by a successful `record_modified` of the root — which is exactly
+when the root's time changes during a write or a child invalidation — and (b) unconditionally by an
+effective `invalidate()` of the root itself (`state.observers.notify(mutation_time_)`).
+`bind` replays the source's time when it is valid (`replay_source_time`). -/
+
+/-- `TSDataTracking::record_modified` on the link's own record -/
+def linkRecord (k t : Nat) : Nat := if t ≤ k then k else t
+
+/-- the link record after `apply K o` took `L` to `L'` -/
+def linkStep (r : Nat) (o : Op) (L L' : Lmt) (k : Nat) : Nat :=
+  match o with
+  | .w _ t => if L' r = L r then k else linkRecord k t
+  | .inv p t =>
+    if L p = 0 then k                       -- no-op invalidate
+    else if p = r then linkRecord k t       -- observers.notify(t) of the root itself
+    else if L' r = L r then k else linkRecord k t
+
+/-- a fresh link bound to a target whose root carries `L r` -/
+def linkBind (r : Nat) (L : Lmt) : Nat := if L r = 0 then 0 else linkRecord 0 (L r)
+
+/-- `InputDataCursor::last_modified_time`: `max(raw, data)` at the target root, `data` below it -/
+def inLmt (r k : Nat) (L : Lmt) (p : Nat) : Nat := if p = r then max k (L p) else L p
+
+/-- `InputDataCursor::modified(t)`: `raw.modified(t) || data.modified(t)` at the root -/
+def inModified (r k : Nat) (L : Lmt) (p t : Nat) : Prop := if p = r then (k = t ∨ L p = t) else L p = t
+
+/-- `TSInputView::valid`: `data.has_current_value()` -/
+def inValid (L : Lmt) (p : Nat) : Prop := L p ≠ 0
+
+instance (r k : Nat) (L : Lmt) (p t : Nat) : Decidable (inModified r k L p t) := by
+  unfold inModified; exact inferInstance
+instance (L : Lmt) (p : Nat) : Decidable (inValid L p) := by unfold inValid; exact inferInstance
+instance (L : Lmt) (p t : Nat) : Decidable (modified L p t) := by unfold modified; exact inferInstance
+instance (L : Lmt) (p : Nat) : Decidable (valid L p) := by unfold valid; exact inferInstance
+
+/-! ## trees from a parent table (used by the model driver and the examples) -/
+
+/-- parent of `p` according to the table; entries that do not point to a smaller position are roots -/
+def parentOf (a : Array (Option Nat)) (p : Nat) : Option Nat :=
+  match a[p]? with
+  | some (some q) => if q < p then some q else none
+  | _ => none
+
+theorem parentOf_lt {a : Array (Option Nat)} {p q : Nat} (h : parentOf a p = some q) : q < p ∧ p < a.size := by
+  unfold parentOf at h
+  split at h
+  · rename_i q' hq
+    split at h
+    · rename_i hlt
+      injection h with h; subst h
+      refine ⟨hlt, ?_⟩
+      have := (Array.getElem?_eq_some_iff.mp hq).1
+      exact this
+    · cases h
+  · cases h
+
+/-- the finite tree described by a parent table: children in increasing position order -/
+def KTree.ofParents (a : Array (Option Nat)) : KTree where
+  parent := parentOf a
+  wf := fun _ _ h => (parentOf_lt h).1
+  kids := fun p => (List.range a.size).filter (fun c => parentOf a c == some p)
+  kids_iff := by
+    intro p c
+    simp only [List.mem_filter, List.mem_range, beq_iff_eq]
+    constructor
+    · exact fun h => h.2
+    · exact fun h => ⟨(parentOf_lt h).2, h⟩
+  height := fun p => a.size - p
+  height_lt := by
+    intro p c h
+    have := parentOf_lt h
+    omega
 
 end HgVerif.Tracking
